@@ -95,7 +95,17 @@ struct HalfaggSim {
         if (!buf.intact()) { r.violate("C17", "overflow", "secp256k1_schnorrsig_inc_aggregate", "wrote outside the " + std::to_string(cap) + "-byte buffer"); return false; }
         bool enough = (size_t)cap >= 32 * (ntot + 1) && (A.agg.size() <= (size_t)cap);
         if ((ok != 0) != enough) { r.violate("C17", "capacity", "secp256k1_schnorrsig_inc_aggregate", "buffer of " + std::to_string(cap) + " bytes for n=" + std::to_string(ntot) + ": returned " + std::to_string(ok)); return false; }
-        if (!ok) { r.fault("capacity_too_small"); if (buf.bytes() == before) r.probe("failed_call_left_buffer_intact"); else r.probe("failed_call_modified_buffer"); return false; }
+        if (!ok) {
+            r.fault("capacity_too_small"); if (buf.bytes() == before) r.probe("failed_call_left_buffer_intact"); else r.probe("failed_call_modified_buffer");
+            // the caller's retry loop: same buffer, same length variable (whatever the failed call left in it) - it must fail again and stay inside the buffer
+            if (len != (size_t)cap) r.probe("failed_call_changed_length_variable");
+            mk = mon_mark();
+            int ok2 = L01(secp256k1_schnorrsig_inc_aggregate(frugal_ctx(use_static, ctx, "secp256k1_schnorrsig_inc_aggregate"), buf.p(), &len, pkp, msgp, sigp, A.used.size(), news.size()));
+            r.cmp();
+            if (!buf.intact()) { r.violate("C17", "overflow", "secp256k1_schnorrsig_inc_aggregate", "the retry after a failed call wrote outside the " + std::to_string(cap) + "-byte buffer (length variable as the failed call left it)"); return false; }
+            if (ok2 || !mon_quiet_since(mk)) { r.violate("C17", "capacity", "secp256k1_schnorrsig_inc_aggregate", "buffer of " + std::to_string(cap) + " bytes for n=" + std::to_string(ntot) + ": the retry with the same length variable returned " + std::to_string(ok2)); return false; }
+            return false;
+        }
         if (len != 32 * (ntot + 1)) { r.violate("C17", "length", "secp256k1_schnorrsig_inc_aggregate", "aggsig_len " + std::to_string(len) + " != 32*(n+1) for n=" + std::to_string(ntot)); return false; }
         out->assign(buf.p(), buf.p() + len);
         return true;
